@@ -21,7 +21,6 @@
 package c12
 
 import (
-	"encoding/json"
 	"fmt"
 	"io"
 	"log"
@@ -230,6 +229,22 @@ type world struct {
 	ghost  *rawSvc
 	gpid   *actor.PID
 	all    []*actor.PID // everything with a run service to stop
+	plain  []*actor.PID // scripted actors on the default dispatcher
+}
+
+// One ActorSystem for the whole run (creating one costs ~2.5 ms); every case gets fresh actors.
+var (
+	theSys *actor.ActorSystem
+	caseNo int
+)
+
+func system() *actor.ActorSystem {
+	if theSys == nil {
+		theSys = actor.NewActorSystemWithConfig(actor.Configure(actor.WithLoggerFactory(func(*actor.ActorSystem) *slog.Logger {
+			return slog.New(slog.NewTextHandler(io.Discard, nil))
+		})))
+	}
+	return theSys
 }
 
 var cur *world
@@ -243,32 +258,26 @@ func stName(i int) string {
 	return "s" + strconv.Itoa(i)
 }
 
-func canonStateName(s string) string {
-	switch s {
-	case "4":
-		return "exiting"
-	case "5":
-		return "exited"
-	case "working", "retiring", "retired", "init":
-		return s
-	}
-	return "?"
-}
-
 func (w *world) teardown() {
 	// cell2 services only stop their run-service goroutine on a *user* message *actor.Stop
 	for _, p := range w.all {
 		w.sys.Root.Send(p, &actor.Stop{})
 	}
+	for _, p := range w.plain {
+		w.sys.Root.Stop(p)
+	}
 	synctest.Wait()
+	// their dispatcher is gone, so a system Stop would never be processed: free the names by hand
+	// (the admin service is always spawned under the fixed name __nodeadmin__)
+	for _, p := range w.all {
+		w.sys.ProcessRegistry.Remove(p)
+	}
 }
 
 func (w *world) spawnRaw(name string) (*rawSvc, *actor.PID) {
 	s := &rawSvc{name: name, r: w.r, admin: func() *actor.PID { return w.ctrl.GetAdmin() }}
-	pid, err := w.sys.Root.SpawnNamed(actor.PropsFromProducer(func() actor.Actor { return s }), name)
-	if err != nil {
-		panic(err)
-	}
+	pid := w.sys.Root.Spawn(actor.PropsFromProducer(func() actor.Actor { return s }))
+	w.plain = append(w.plain, pid)
 	return s, pid
 }
 
@@ -276,9 +285,8 @@ func newWorld(kinds []string) *world {
 	if cur != nil {
 		cur.teardown()
 	}
-	w := &world{sys: actor.NewActorSystemWithConfig(actor.Configure(actor.WithLoggerFactory(func(*actor.ActorSystem) *slog.Logger {
-		return slog.New(slog.NewTextHandler(io.Discard, nil))
-	}))), r: &rec{}}
+	caseNo++
+	w := &world{sys: system(), r: &rec{}}
 	// the real stateutils.NotifyServiceRetired reaches the controller through the global app.Node
 	app.Node = app.NewNode()
 	w.ctrl = app.Node.GetNodeCtrl()
@@ -298,9 +306,9 @@ func newWorld(kinds []string) *world {
 				}
 				ns.SetCtrlCmdListener(&listener{name: s.name, ans: ans, r: w.r})
 			}
-			props, ext := as.NewServicePropsWithNewScheDisp(func() actor.Actor { return ns }, "c12."+s.name)
+			props, ext := as.NewServicePropsWithNewScheDisp(func() actor.Actor { return ns }, fmt.Sprintf("c12.%d.%s", caseNo, s.name))
 			ext.WithAPIs(nservice.SystemAPI)
-			pid, err := w.sys.Root.SpawnNamed(props, s.name)
+			pid, err := w.sys.Root.SpawnNamed(props, fmt.Sprintf("c12.%d.%s", caseNo, s.name))
 			if err != nil {
 				panic(err)
 			}
@@ -360,27 +368,12 @@ func okOrRefused(reply string, got bool) string {
 	return "refused"
 }
 
+// stat / web_nodes are informational: whatever they answer is class `info` (texts are not compared)
 func infoClass(reply string, got bool) string {
 	if !got {
 		return "none"
 	}
-	if reply == "ok" {
-		return "ok"
-	}
-	if strings.HasPrefix(reply, "state: ") {
-		rest := reply[len("state: "):]
-		if i := strings.IndexByte(rest, ','); i >= 0 {
-			return "info:" + canonStateName(rest[:i])
-		}
-		return "info:?"
-	}
-	var js struct {
-		Status string `json:"status"`
-	}
-	if json.Unmarshal([]byte(reply), &js) == nil {
-		return "info:" + canonStateName(js.Status)
-	}
-	return "info:?"
+	return "info"
 }
 
 func (w *world) svcAt(ws []string) *svc {
@@ -674,5 +667,53 @@ func TestRun(t *testing.T) {
 			}
 		}
 		finish()
+	})
+}
+
+// TestExhaustive (thorough tier): bounded-exhaustive histories. Every sequence of exactly `length`
+// letters is one case (its prefixes are the shorter histories, observed op by op).
+func TestExhaustive(t *testing.T) {
+	logger.SetLogLevel(logrus.PanicLevel)
+	log.SetOutput(io.Discard)
+	builtin.Visit()
+	registry.Registry.Build()
+	synctest.Test(t, func(t *testing.T) {
+		h := hx.Open()
+		run := func(op string) { h.Emit(op, hx.Guard(func() string { return exec(op) })) }
+		core := []string{"cmd retire", "cmd exit", "qack i=0 res=ok", "qack i=1 res=ok", "retired i=0", "retired i=1",
+			"stopdone succ=1", "stopdone succ=0"}
+		full := append(append([]string{}, core...), "cmd stat", "cmd web_retire", "cmd web_exit", "retired i=ghost",
+			"cmd nosuch", "qack i=0 res=no", "tick")
+		enum := func(label, reset string, letters []string, length int) {
+			idx := make([]int, length)
+			n := 0
+			for {
+				run(reset)
+				for _, k := range idx {
+					run(letters[k])
+				}
+				n++
+				p := length - 1
+				for p >= 0 {
+					idx[p]++
+					if idx[p] < len(letters) {
+						break
+					}
+					idx[p] = 0
+					p--
+				}
+				if p < 0 {
+					break
+				}
+			}
+			h.Stats[fmt.Sprintf("exhaustive.%s.letters%d.len%d", label, len(letters), length)] = n
+		}
+		enum("raw-raw", "reset k=raw,raw", core, hx.EnvInt("VERIF_EXH_LEN", 6))
+		enum("raw-nok", "reset k=raw,nok", full, hx.EnvInt("VERIF_EXH_LEN2", 4))
+		enum("raw", "reset k=raw", full, hx.EnvInt("VERIF_EXH_LEN2", 4))
+		enum("nok-dead", "reset k=nok,dead", full, 3)
+		h.Close()
+		os.Stdout.Sync()
+		syscall.Exit(0)
 	})
 }
